@@ -60,6 +60,7 @@ Inductive entry :=
 | EClock (t w h : Z)
 | EClockEnd (k : endkind) (w h : Z)
 | EProc (w : Z) (p : nat) (dt : Z)
+| ECoro (w : Z) (c : nat)                    (* coroutine c of world w runs one step *)
 | EPoke (k tok w : Z)
 | EAct (o : origin) (a : action) (w h : Z)   (* about to perform a; loop.current_world /
                                                 current_world_handle at that moment *)
@@ -70,7 +71,8 @@ Inductive entry :=
 | ETopExc (x : topexc) (w h : Z).            (* loop.switch raised *)
 
 Record rcase := {
-  c_nps : list nat;
+  c_nps : list nat;                     (* scripted processors of handle 0, 1, ... *)
+  c_ncs : list nat;                     (* coroutines of the worlds of handle 0, 1, ... *)
   c_ops : list (op * list entry) }.
 
 (* ---- decidable equality -------------------------------------------------- *)
